@@ -4,7 +4,7 @@ HOOKS = {
               "compile /repo's sources through symlinks)",
     "baseline_off_cmd": "cd /repo && cargo nextest run --workspace --no-fail-fast --tool-config-file "
                         "pb:/w/lib/nextest.toml --profile pb --test-threads 8 --offline",
-    "source_commits": ["e2ad724", "3a73802", "1c721a0", "41fe99d", "254b2fc", "88d9964", "02f3736", "ae63f80", "37fb407"],
+    "source_commits": ["e2ad724", "3a73802", "1c721a0", "41fe99d", "254b2fc", "88d9964", "02f3736", "ae63f80", "37fb407", "d529db9"],
     "add_only": True,
 }
 
@@ -173,7 +173,10 @@ CHECKS = {
                 "at the real constants (20 / 10000 / 120) and checks C20's invariants in every state; every edge of "
                 "both graphs is replayed on the real StatusState / ServiceState with the output compared after every "
                 "step (transition cover = behavioural equivalence for a deterministic object), and seeded random "
-                "histories recorded from the real objects are validated by TLC against the property-level trace specs.",
+                "histories recorded from the real objects are validated by TLC against the property-level trace specs. "
+                "The monitor loop's own report (service_main.rs report_proxy_agent_aggregate_status, hook H8) is driven "
+                "poll by poll in a private mount namespace with the agent's status file refreshed / unchanged / missing / "
+                "of another version / unreadable before each poll, and validated by the same trace spec.",
         "note": "Trusts TLC, the transcription of C20 into Health.tla/HealthRate.tla invariants, determinism of the two "
                 "objects. The rate limiter's wiring constant MAX_STATE_COUNT is private; exercised at 120.",
         "technique": "TLA+ spec + TLC exhaustive model checking; spec->impl transition-cover replay; impl->spec trace validation",
